@@ -1100,7 +1100,7 @@ func newMethod(obj Value, f *funcT) Value {
 	if f.Variadic {
 		vArgs = -vArgs
 	}
-	return newFunc(vArgs, f.Rets, func(v *VM) {
+	m := newFunc(vArgs, f.Rets, func(v *VM) {
 		args := make([]Value, xArgs)
 		copy(args, v.stack[len(v.stack)-xArgs:])
 		v.stack = v.stack[:len(v.stack)-xArgs]
@@ -1108,6 +1108,9 @@ func newMethod(obj Value, f *funcT) Value {
 		v.stack = append(v.stack, args...)
 		f.Value(v)
 	})
+	// surplus arguments are packed into a slice of the method's variadic element type
+	m.getFunc().VariadicType = f.VariadicType
+	return m
 }
 
 func (s *structT) SetIndex(k int, v Value) {
